@@ -972,6 +972,9 @@ func (g *connGroup) closeIdleConns() {
 	conns := g.idleConns
 	g.idleConns = nil
 	g.closed = true
+	if verifOn {
+		verifEvent("T.CloseIdle", g, len(conns))
+	}
 	g.mutex.Unlock()
 
 	for _, c := range conns {
@@ -1064,6 +1067,9 @@ func (g *connGroup) grabConnTo(network, address string) *conn {
 			if c.timer != nil {
 				c.timer.Stop()
 			}
+			if verifOn {
+				verifEvent("T.Grab", c)
+			}
 
 			return c
 		}
@@ -1088,6 +1094,9 @@ func (g *connGroup) grabConn() *conn {
 	if c.timer != nil {
 		c.timer.Stop()
 	}
+	if verifOn {
+		verifEvent("T.Grab", c)
+	}
 
 	return c
 }
@@ -1106,6 +1115,9 @@ func (g *connGroup) removeConn(c *conn) bool {
 			n := len(g.idleConns) - 1
 			g.idleConns[n] = nil
 			g.idleConns = g.idleConns[:n]
+			if verifOn {
+				verifEvent("T.Remove", c)
+			}
 			return true
 		}
 	}
@@ -1120,6 +1132,9 @@ func (g *connGroup) releaseConn(c *conn) bool {
 	defer g.mutex.Unlock()
 
 	if g.closed {
+		if verifOn {
+			verifEvent("T.Release", c, false)
+		}
 		return false
 	}
 
@@ -1134,6 +1149,9 @@ func (g *connGroup) releaseConn(c *conn) bool {
 	}
 
 	g.idleConns = append(g.idleConns, c)
+	if verifOn {
+		verifEvent("T.Release", c, true)
+	}
 	return true
 }
 
@@ -1232,6 +1250,9 @@ func (g *connGroup) connect(ctx context.Context, addr net.Addr) (*conn, error) {
 		reqs:    reqs,
 		group:   g,
 	}
+	if verifOn {
+		verifEvent("T.New", c, g, pc.LocalAddr().String())
+	}
 	go c.run(pc, reqs)
 
 	netConn = nil
@@ -1253,9 +1274,18 @@ func (c *conn) close() {
 
 func (c *conn) run(pc *protocol.Conn, reqs <-chan connRequest) {
 	defer pc.Close()
+	if verifOn {
+		defer verifEvent("T.Exit", c)
+	}
 
 	for cr := range reqs {
+		if verifOn {
+			verifEvent("T.Recv", c)
+		}
 		r, err := c.roundTrip(cr.ctx, pc, cr.req)
+		if verifOn {
+			verifEvent("T.Done", c, err == nil, err != nil && errors.Is(err, protocol.ErrNoRecord))
+		}
 		if err != nil {
 			cr.res.reject(err)
 			if !errors.Is(err, protocol.ErrNoRecord) {
